@@ -765,10 +765,29 @@ inline void apply_crate_op(World& w, S& s, Ctx& ctx, int mask)
                 ctx.label("add-existing-member");
             if (c->id != t->id)
                 w.diverged_ids = true;
+            // sometimes through the range form add_tracks(first, last), with up to two more tracks (possibly repeated or already present)
+            std::vector<TrackM*> more;
+            if (!by_id && s.below(4) == 3)
+            {
+                for (size_t k = 1 + s.below(2); k > 0; --k)
+                    if (TrackM* x = pick_track())
+                        more.push_back(x);
+                ctx.label("add_tracks(range)");
+                w.hist += "+range";
+                for (auto x : more)
+                    w.hist += "," + std::to_string(x->id);
+            }
             try
             {
                 if (by_id)
                     c->handle.add_track(t->id);
+                else if (!more.empty())
+                {
+                    std::vector<dj::track> range{t->handle};
+                    for (auto x : more)
+                        range.push_back(x->handle);
+                    c->handle.add_tracks(range.begin(), range.end());
+                }
                 else
                     c->handle.add_track(t->handle);
             }
@@ -785,6 +804,14 @@ inline void apply_crate_op(World& w, S& s, Ctx& ctx, int mask)
                 w.members.insert({c->id, t->id});
                 w.entries[c->id].push_back(t->id);
             }
+            for (auto x : more)
+                if (!w.members.count({c->id, x->id}))
+                {
+                    w.members.insert({c->id, x->id});
+                    w.entries[c->id].push_back(x->id);
+                    if (c->id != x->id)
+                        w.diverged_ids = true;
+                }
             else if (!w.v2)
             {
                 // 1.x re-adds (delete + insert): listing order is not specified there
